@@ -222,7 +222,7 @@ class Renderer:
             else:
                 e = "dds.keep(" + ", ".join(parts) + ")"
         elif k == "load":
-            e = f"dds.load({it['path']!r})"
+            e = f"dds.load({it['path']!r})" + (f".{it['method']}" if it.get("method") else "")   # e.g. .upper(), .strip('/zzz')
         elif k == "eval":
             f = _fn(self.spec, it["fn"])
             e = "dds.eval(" + self.sym(mod, it["fn"], f["module"], "from", imports) + ")"
